@@ -681,7 +681,7 @@ func (q *ListObjectsQuery) Execute(
 		listObjectsResponse.Objects = append(listObjectsResponse.Objects, result.ObjectID)
 	}
 
-	if len(listObjectsResponse.Objects) < int(maxResults) && errs != nil {
+	if (maxResults == 0 || len(listObjectsResponse.Objects) < int(maxResults)) && errs != nil {
 		return nil, errs
 	}
 
